@@ -264,7 +264,7 @@ def analyse(ctx, cfg, res):
         # unchanged simulator, so the configuration itself is the failing input
         ctx.count("wholerun_rc_nonzero")
         ctx.note(f"whole-run configuration {key} ended with rc={res.rc}: {res.log[-300:]}")
-        # crashes that are the recorded findings of the owning properties (findings.d): counted, not re-reported
+        # crashes that are the recorded findings of the owning properties (known_findings.json): counted, not re-reported
         known = [("get_yearly_value_for_multi_day_stat", "ZeroDivisionError", "C14-open-ended-yearly-share"),
                  ("_estimate_method_crews_required", "OverflowError", "crew estimate when no survey fits a workday"),
                  ("scheduled_survey_planner", "KeyError", "C06 F12 trailing partial year")]
